@@ -113,6 +113,11 @@ def run(rep, tier):
                 ('memory write enabled during reset: %s' % [(w[0], repr(w[1])) for w in live]) if live else
                 ('registers under reset: %s' % {k: repr(v) for k, v in r['next'].items()}) if not regs_ok else 'registers cleared, write enable false',
                 nontrivial=(b >> 4) in (2, 8))
+    # R9: one clock / reset domain (import of the connection instances of C03-R2)
+    rep.rule('R9', 'processor and memory are clocked and reset by the top-level i_clk / i_rst themselves: a memory clocked by a derived clock '
+             '(~i_clk) takes its stores on the other edge, so a store by the first instruction after reset release falls into the reset '
+             'phase and the word keeps its power-on content', floor=4)
+    c03.clock_connections(rep, 'R9', d, top)
     # R8: no architectural next state is an X the build resolves per seed
     rep.rule('R8', 'no next-state function of an architectural register contains an X constant for any instruction byte while the build asks '
              'Verilator to resolve X assignments with per-seed random values (--x-assign unique): an X that reaches a register is then a '
